@@ -2,5 +2,6 @@ SPECIFICATION Spec
 CONSTANTS
   B = 4
   MaxV <- MaxVDef
+  TopDigits = {0, 1, 2, 3}
 INVARIANT Thm
 CHECK_DEADLOCK FALSE
